@@ -145,10 +145,11 @@ type env struct {
 	ops      []opRec
 	obs      []string
 	feats    map[string]bool
-	closelog []int    // ids of conns whose Close() was called, in call order (under mu)
-	ci       *ciState // a CloseIdleConnections call in progress (cibegin ... cfin)
-	broken   bool     // the watchdog fired: the trace stops here (goroutines of this case may stay blocked)
-	flagged  bool     // some observation had live+dials > max while a blocked Close was outstanding
+	closelog []int       // ids of conns whose Close() was called, in call order (under mu)
+	ci       *ciState    // a CloseIdleConnections call in progress (cibegin ... cfin)
+	panicked atomic.Bool // the implementation panicked in a goroutine of the harness
+	broken   bool        // the watchdog fired: the trace stops here (goroutines of this case may stay blocked)
+	flagged  bool        // some observation had live+dials > max while a blocked Close was outstanding
 }
 
 func newEnv(d desc) *env {
@@ -175,6 +176,13 @@ func newEnv(d desc) *env {
 	}
 	e.hc = hc
 	return e
+}
+
+// guard turns a panic of the implementation inside a harness-owned goroutine into an observation (stuck) instead of a crash
+func (e *env) guard() {
+	if p := recover(); p != nil {
+		e.panicked.Store(true)
+	}
 }
 
 func (e *env) effMax() int {
@@ -299,6 +307,9 @@ func (e *env) emit(name, coq string, stuck bool) {
 	if !waitFor(e.quiescent, 2*time.Second) {
 		stuck = true
 	}
+	if e.panicked.Load() {
+		stuck = true
+	}
 	if stuck {
 		e.broken = true
 	}
@@ -367,6 +378,13 @@ func (e *env) spawnAcquire(reqTimeout time.Duration) *thr {
 	e.threads = append(e.threads, t)
 	connClose := !e.d.Clean // connectionClose=true keeps AcquireConn from starting the connsCleaner goroutine
 	go func() {
+		defer func() {
+			if p := recover(); p != nil {
+				e.panicked.Store(true)
+				t.err = errors.New("panic")
+				close(t.done)
+			}
+		}()
 		cc, err := e.hc.AcquireConn(reqTimeout, connClose)
 		if err != nil {
 			t.err = err
@@ -529,7 +547,10 @@ func (e *env) opCloseBegin(id int) {
 	h.conn.gate = make(chan struct{})
 	e.mu.Unlock()
 	e.blocked = append(e.blocked, h)
-	go h.closeFn()
+	go func() {
+		defer e.guard()
+		h.closeFn()
+	}()
 	ok := waitFor(func() bool {
 		select {
 		case <-h.conn.entered:
@@ -635,8 +656,9 @@ func (e *env) opCloseIdleBegin() {
 	e.mu.Unlock()
 	e.ci = ci
 	go func() {
+		defer close(ci.done)
+		defer e.guard()
 		e.hc.CloseIdleConnections()
-		close(ci.done)
 	}()
 	ok := e.ciAdvance()
 	e.emit("cibegin", "OCloseIdleBegin", !ok)
@@ -791,6 +813,15 @@ func (e *env) doScript(op string) {
 	if e.broken {
 		return
 	}
+	if p := hlib.Protect(func() { e.doScript1(op) }); p != "" {
+		e.panicked.Store(true)
+		if !e.broken {
+			e.emit("panic", "OCloseIdle", true)
+		}
+	}
+}
+
+func (e *env) doScript1(op string) {
 	name, arg, _ := strings.Cut(op, ":")
 	n, _ := strconv.Atoi(arg)
 	switch name {
@@ -903,6 +934,15 @@ func (e *env) randomOp(r *rand.Rand) {
 
 // bring the pool to rest: every requester returns, every connection is closed
 func (e *env) drain() {
+	if p := hlib.Protect(e.drain1); p != "" {
+		e.panicked.Store(true)
+		if !e.broken {
+			e.emit("panic", "OCloseIdle", true)
+		}
+	}
+}
+
+func (e *env) drain1() {
 	for round := 0; round < 60 && !e.broken; round++ {
 		progress := false
 		for _, m := range e.mans {
